@@ -1,30 +1,62 @@
 """C08 bounded stand-in (NOT counted as proved): batch mode == independent replicas, float64, on the real code.
 
 For every batch-capable module a batched object is built with a parameter batch shape P, every raw parameter of every
-batch element gets a DIFFERENT random value, it is applied to data with batch shape D, and element b of every output
-(b ranges over the broadcast batch shape) is compared with
+batch element gets a DIFFERENT random value (0.6 * randn in raw space, seeded), it is applied to data with batch shape D,
+and element b of every output (b ranges over the whole broadcast batch shape) is compared with
 
-  (replica)  a NON-batched object of the same class that carries the b-th slice of every parameter / buffer (copied by
-             this harness, tensor by tensor: torch.broadcast_to(param, full + tail)[b]), applied to the b-th slice of the data;
-  (dense)    for exact GPs, Gaussian likelihoods, MLLs, whitened / unwhitened variational strategies, KL, ELBO, predictive
-             log likelihood: dense float64 linear algebra written here (torch.linalg on dense matrices), which uses gpytorch
-             only to evaluate the replica's kernel / mean / noise on the b-th data slice.
+  (vs_replica)  a NON-batched object of the same class that carries the b-th slice of every parameter / buffer (copied by
+                this harness tensor by tensor: torch.broadcast_to(param, full + tail)[b]), applied to the b-th data slice;
+  (vs_dense)    for Gaussian likelihoods, exact GPs (prior, MLL, posterior, predictive), whitened / unwhitened variational
+                strategies (q(f), KL, ELBO, predictive log likelihood), multi-output wrappers and model lists: dense float64
+                linear algebra written here (torch.linalg on dense matrices), which uses gpytorch only to evaluate the
+                replica's kernel / mean / noise value on the b-th data slice - never the batched code path under test.
 
-P and D range independently over {(), (2,), (3,1), (1,2), (3,2)} (all 25 pairs are broadcastable; rank 0..2); composite
-kernels additionally mix two different parameter batch shapes ('cross': (2,) x (3,1), (3,1) x (1,2), 'last': P[-1:]).
-Also: Kernel.__getitem__ / lazy kernel-tensor indexing / prior[b] (element b taken through the library's own indexing),
-IndependentModelList (members' outputs, exactly) and SumMarginalLogLikelihood (mean of the members' MLLs, per batch element).
+P and D range independently over {(), (2,), (3,1), (1,2), (3,2)} (all 25 pairs are broadcastable; ranks 0..2).  Composite
+kernels / models additionally mix DIFFERENT parameter batch shapes inside one object ('cross(P)': (2,) x (3,1), (3,1) x (1,2);
+'last(P)': P[-1:]; '[()]': an unbatched part).  Exact GPs also vary the train-target batch (Dy) and the test-input batch (Dt).
 
-Settings: Cholesky path (fast_computations all off, max_cholesky_size large), fast_pred_var off, lazily evaluated kernels on
-(default), default jitters.  Tolerance: |got - want| <= 1e-6 * (1 + |want|) elementwise, everywhere, with these stated
-consequences / exceptions:
-  * whitened / unwhitened variational strategies add variational_cholesky_jitter (float64 default 1e-6) to K_ZZ (and the
-    whitened one to K_XX): the dense oracle adds the same documented jitter, so the tolerance stays 1e-6.
-  * CiqVariationalStrategy (contour-integral quadrature + msMINRES, an iterative approximation whose stopping rule looks at
-    the whole batch) is compared with its replicas at 1e-3; it has no dense oracle here.
-  * NNVariationalStrategy needs faiss / a k-NN index and stochastic minibatches: skipped.
-  * keops kernels, MultiDeviceKernel: skipped (need KeOps / CUDA).  SoftmaxLikelihood, BernoulliLikelihood have no batch
-    parameters (Bernoulli is included for data batches only).
+Sections (select with run(only=[...])):
+  kernels       58 kernel configurations (every CPU kernel class of gpytorch.kernels incl. Scale / Additive / Product / structure /
+                Index / Multitask / LCM / grid / inducing-point / derivative kernels): kernel.batch_shape, K(x1, x2), K(x, x),
+                diag=True; element b through the library's own indexing: kernel[ix] and the lazily evaluated kernel(x1, x2)[ix].
+  means         Constant / Zero / Linear (+ Grad, GradGrad) / Multitask means.
+  likelihoods   Homoskedastic / MultitaskHomoskedastic noise; Gaussian, FixedNoise(+learned), StudentT, Laplace, Beta, Bernoulli,
+                MultitaskGaussian (rank 0 / 1 / no global noise): marginal, expected_log_prob, log_marginal.
+  exact         ExactGP x 5 model families (incl. mixed batch shapes and parameter priors): prior, prior[ix], ExactMarginalLogLikelihood
+                (fast_computations off AND the library default), posterior, predictive.
+  exact_special FixedNoise likelihood; Kronecker multitask GP; batch-independent multi-output GP (batch dim -> tasks).
+  variational   VariationalStrategy x {Cholesky, MeanField, Delta, Natural, TrilNatural} x {shared, batched inducing points},
+                Unwhitened, Ciq, BatchDecoupled (2 modes), OrthogonallyDecoupled, GridInterpolation strategies: q(f) (train / eval),
+                KL, VariationalELBO (Gaussian and Bernoulli likelihood), PredictiveLogLikelihood; the MLLs with parameter priors;
+                IndependentMultitask and LMC strategies against per-task / per-latent replicas.
+  model_list    IndependentModelList == its members' outputs (bit for bit); SumMarginalLogLikelihood == mean of the members' MLLs,
+                per batch element, for non-batched, batched and mixed-batch members.
+
+Settings: Cholesky path (fast_computations all off, max_cholesky_size 10000; the exact MLL additionally under the default
+fast_computations, which is Cholesky too at these sizes), fast_pred_var off, lazily evaluated kernels on (default), debug on,
+default jitters, torch.no_grad.  Nothing stochastic is evaluated (Gauss-Hermite quadrature is deterministic).
+
+Tolerance: |got - want| <= 1e-6 * (1 + |want|) elementwise, everywhere, with these stated consequences / exceptions:
+  * whitened / unwhitened variational strategies add variational_cholesky_jitter (float64 default 1e-6) to K_ZZ (the whitened one
+    also to K_XX; the LMC strategy to its output covariance): the dense oracle adds the same documented jitter.
+  * the unwhitened strategy, in training mode, keeps only the diagonal of K_XX - K_XZ K_ZZ^-1 K_ZX (its documented training
+    shortcut): the dense oracle does the same in training mode and uses the full matrix in eval mode.
+  * CiqVariationalStrategy (contour-integral quadrature + msMINRES, an iterative approximation whose stopping rule looks at the
+    whole batch) is compared with its replicas at 1e-3; it has no dense oracle here.
+  * IndependentModelList outputs vs the members' own outputs: exact equality (tol 0).
+Shape rule: an output must have shape (broadcast batch shape) + (replica output shape).  For distribution means / covariances and
+likelihood terms whose shape is merely broadcastable to that, the values are still compared after broadcasting and the shape
+defect is reported ONCE per family / quantity under the key '<family>/<quantity>/unexpanded_shape'.  KL(q(u) || p(u)) may have the
+parameter batch shape or the full batch shape.
+Exceptions raised inside /repo/gpytorch on these inputs are violations of the key being evaluated; exceptions of a NON-batched
+replica are not batch-mode findings and are listed under result['skipped'] (none at present).
+
+Skipped: NNVariationalStrategy (needs faiss / k-NN index and stochastic minibatches), keops kernels (KeOps), MultiDeviceKernel (CUDA),
+DistributionalInputKernel (covered by its subclass GaussianSymmetrizedKLKernel), SoftmaxLikelihood (no batch parameters; Bernoulli is
+included for data batches only), DirichletClassificationLikelihood (noise derived from class labels), Pyro / deep GP / GPLVM models,
+HeteroskedasticNoise (an inner GP; its batch behaviour is that of ExactGP).  Quick tier: the indexing checks run for the core
+kernels and the wrappers with their own slicing logic on 11 (P, D) pairs; long-tail kernels / non-Gaussian likelihoods / most
+variational families use a spread of 9-11 (P, D) pairs; thorough: all 25 pairs everywhere plus kernel(x1_expanded, x2_expanded)[ix].
 """
 from __future__ import annotations
 
@@ -274,8 +306,11 @@ def run(tier="quick", seed=0, only=None):
             zb = tuple(P) if batched_z else ()
             Z = Zs.setdefault((tuple(P), batched_z), torch.linspace(-1.0, 1.0, 3, dtype=dt).reshape(3, 1).expand(*zb, 3, d) + 0.2 * U(-1, 1, *zb, 3, d))
             return GK.InducingPointKernel(GK.ScaleKernel(GK.RBFKernel(batch_shape=S(P)), batch_shape=S(P)), inducing_points=Z.clone(), likelihood=GL.GaussianLikelihood(batch_shape=S(P)))
-        add("InducingPointKernel/shared_Z", lambda P: ipk(P, False), modes=("full", "sym", "diag"))
-        add("InducingPointKernel/batched_Z", lambda P: ipk(P, True), modes=("full", "sym", "diag"), index=True)
+        # training mode requires x1 == x2; eval mode also serves cross-covariances (and applies the SGPR diagonal correction for x1 == x2)
+        add("InducingPointKernel/train/shared_Z", lambda P: ipk(P, False), modes=("sym", "diag"))
+        add("InducingPointKernel/train/batched_Z", lambda P: ipk(P, True), modes=("sym", "diag"))
+        add("InducingPointKernel/eval/shared_Z", lambda P: ipk(P, False).eval(), modes=("full", "sym", "diag"))
+        add("InducingPointKernel/eval/batched_Z", lambda P: ipk(P, True).eval(), modes=("full", "sym", "diag"), index=True)
         # ---- composites; parameter batch shapes inside one kernel may differ and broadcast against each other
         add("ScaleKernel[P](RBF[P])", lambda P: GK.ScaleKernel(GK.RBFKernel(batch_shape=S(P)), batch_shape=S(P)), core=True)
         add("ScaleKernel[inferred](RBF[P])", lambda P: GK.ScaleKernel(GK.RBFKernel(batch_shape=S(P))), core=True)
@@ -316,9 +351,12 @@ def run(tier="quick", seed=0, only=None):
                         rep = copy_slice(kern, fam["make"](()).double(), full, b)
                         a, c = sl(x1, full, 2, b), sl(x2, full, 2, b)
                         with torch.no_grad():
-                            wants["full"][b] = rep(a, c).to_dense()
-                            wants["sym"][b] = rep(a).to_dense()
-                            wants["diag"][b] = dense(rep(a, diag=True))
+                            if "full" in fam["modes"]:
+                                wants["full"][b] = rep(a, c).to_dense()
+                            if "sym" in fam["modes"]:
+                                wants["sym"][b] = rep(a).to_dense()
+                            if "diag" in fam["modes"]:
+                                wants["diag"][b] = dense(rep(a, diag=True))
                         reps[b] = rep
                     except Exception as e:  # noqa: BLE001
                         if classify_replay_exception(e).get("violates"):
@@ -512,7 +550,7 @@ def run(tier="quick", seed=0, only=None):
                     except Raised:
                         pass
                 for q, g in got.items():
-                    ln = f"likelihood/{name}/{q}/unexpanded_shape" if q.startswith("marginal") else None
+                    ln = f"likelihood/{name}/{q}/unexpanded_shape"
                     compare(f"{pre}/{q}/vs_replica", g, W[q], full, inp, lenient=ln)
                     if Dn[q]:
                         compare(f"{pre}/{q}/vs_dense", g, Dn[q], full, inp, lenient=ln)
@@ -1186,5 +1224,14 @@ def run(tier="quick", seed=0, only=None):
             if only is None or sname in only:
                 fn()
 
+    skipped_static = [{"key": "variational/NNVariationalStrategy", "reason": "needs faiss / a k-NN index and stochastic minibatches"},
+                      {"key": "kernel/keops.*, kernel/MultiDeviceKernel", "reason": "need KeOps / CUDA devices"}]
     return {"name": "C08 batch mode == independent replicas (float64)", "evaluations": ev, "distinct_nontrivial": len(seen),
-            "bound": "", "rule": "", "samples": samples, "violations": violations, "skipped": skipped, "wall_s": round(time.time() - t0, 2)}
+            "bound": (f"tier={tier}, seed={seed}: parameter batch shapes P and data batch shapes D in {{(), (2,), (3,1), (1,2), (3,2)}} independently "
+                      f"({'all 25 pairs everywhere' if thorough else 'all 25 pairs for core kernels / means / noise / Gaussian likelihoods / the main exact GP; a spread of 9-11 pairs for the long tail'}); "
+                      "mixed parameter batch shapes inside composites (cross: (2,)x(3,1), (3,1)x(1,2); last: P[-1:]; unbatched parts); exact GPs also train-target batch Dy and test batch Dt in {(), (2,), (3,2)}; "
+                      "n1 = 3, n2 = 4 points (kernels), n = 4 train / 3 test points (models), input dim 2, 3 inducing points (grid strategy 36), 2-3 tasks, num_data = 2n; "
+                      "one seeded draw of all raw parameters (0.6 * randn) and data (U(-1.2, 1.2)) per configuration; index expressions int / slice / (int, int) / (:, int) / (int, :); "
+                      "settings: fast_computations off (exact MLL also under the default), max_cholesky_size 10000, fast_pred_var off, default jitters; tolerance 1e-6 * (1 + |want|) (Ciq 1e-3)"),
+            "rule": "a case = (module family / configuration, parameter batch shape, data batch shape(s), quantity, reference {replica, dense}); distinct by that key; an evaluation = one batch element compared (or one whole-tensor comparison)",
+            "samples": samples, "violations": violations, "skipped": skipped + skipped_static, "wall_s": round(time.time() - t0, 2)}
